@@ -29,7 +29,8 @@ Record observed := mkObs {
   ob_ccid : list N; ob_scid : list N; ob_rrc : bool;   (* as committed: client's local, server's local *)
   ob_resumed : bool;
   ob_server_cert : bool; ob_client_cert : bool;
-  ob_ch_exts : list N; ob_sh_exts : list N
+  ob_ch_exts : list N; ob_sh_exts : list N;
+  ob_server_key : option N   (* key type of the leaf the client holds as the server's certificate (None = not compared) *)
 }.
 
 Definition c11_case := (cfg * cfg * bool * observed)%type.
@@ -49,7 +50,8 @@ Definition outcome_matches (o : outcome) (ob : observed) : bool :=
       end)
   && Bool.eqb (o_resumed o) (ob_resumed ob)
   && Bool.eqb (o_server_cert o) (ob_server_cert ob) && Bool.eqb (o_client_cert o) (ob_client_cert ob)
-  && list_eqb (o_ch_exts o) (ob_ch_exts ob) && list_eqb (o_sh_exts o) (ob_sh_exts ob).
+  && list_eqb (o_ch_exts o) (ob_ch_exts ob) && list_eqb (o_sh_exts o) (ob_sh_exts ob)
+  && (match ob_server_key ob with Some g => o_server_key o =? g | None => true end).
 
 Definition c11_ok (c : c11_case) : bool :=
   let '(cc, sc, seeded, ob) := c in
@@ -63,6 +65,33 @@ Definition c11_ok (c : c11_case) : bool :=
      | Some (Silent Client) => ob_class ob =? 3
      | Some (Silent Server) => ob_class ob =? 4
      end.
+
+(* steered associations (zz_verif_c11_steer_test.go): two DTLS 1.2-only endpoints, hello verification on/off,
+   what was done to the first ClientHello / the ServerHello *)
+Definition c11s_case := (cfg * cfg * bool * bool * steering * observed)%type.
+
+Definition result_matches (r : option result) (ob : observed) : bool :=
+  match r with
+  | None => negb (ob_built_c ob && ob_built_s ob)
+  | Some (Ok o) => (ob_class ob =? 0) && outcome_matches o ob
+  | Some (Fail Client a) => (ob_class ob =? 1) && (ob_alert ob =? a)
+  | Some (Fail Server a) => (ob_class ob =? 2) && (ob_alert ob =? a)
+  | Some (Silent Client) => ob_class ob =? 3
+  | Some (Silent Server) => ob_class ob =? 4
+  end.
+
+Definition c11s_ok (c : c11s_case) : bool :=
+  let '(cc, sc, seeded, hv, t, ob) := c in result_matches (negotiate_steered cc sc seeded hv t) ob.
+
+Definition predicted_steered (c s : cfg) (seeded hv : bool) (t : steering) : N * N :=
+  match negotiate_steered c s seeded hv t with
+  | None => (9, 0)
+  | Some (Ok _) => (0, 0)
+  | Some (Fail Client a) => (1, a)
+  | Some (Fail Server a) => (2, a)
+  | Some (Silent Client) => (3, 0)
+  | Some (Silent Server) => (4, 0)
+  end.
 
 (* class predicted by the model, for the driver's diagnostics: 0 ok, 1/2 alert by client/server (+ alert),
    3/4 silent, 9 = a constructor rejects *)
